@@ -178,7 +178,7 @@ CHECKS = {
                         "the completion of a run is inferred from the changelog cache entry it writes (no hook)"],
     },
     "C05": {
-        "runs": [_r("TestC05", 3000, 160000), _r("TestC05Limit", 250, 8000, qt=600, tt=3000)],
+        "runs": [_r("TestC05", 3000, 160000), _r("TestC05Limit", 400, 8000, qs=8, qt=600, tt=3000)],
         "rule": "rapid draws a world (generator G) and 2-6 ListObjects calls: engine in {classic reverse expansion, its weighted-graph "
                 "variant, streaming pipeline}, unary or streamed, result limit in {1,2,3,default}, sometimes a 1 ms deadline "
                 "(soundness only), object/wildcard/userset subjects, contexts, contextual tuples. Oracle: returned objects are "
